@@ -147,22 +147,28 @@ func (r *recorder) snapshot() []Ev {
 	return append([]Ev{}, r.evs...)
 }
 
-// ftp and smtp hand every line to a pump goroutine that sends the event some time after
-// Handle has moved on: wait until no further event has arrived for 6 ms (all other
-// services send from the goroutine that runs Handle - nothing to wait for)
-func (r *recorder) settle(svc string) {
-	if svc != "ftp" && svc != "smtp" {
-		return
-	}
-	last, stable := r.count(), 0
-	for i := 0; i < 4000 && stable < 20; i++ {
-		runtime.Gosched()
-		time.Sleep(300 * time.Microsecond)
-		if n := r.count(); n == last {
-			stable++
-		} else {
-			last, stable = n, 0
+// ftp and smtp hand every line to a per-connection pump goroutine that sends the event; the
+// pump ends with its connection (9efeaf2, 7ad8491).  All events of a connection have been
+// sent once every goroutine the case started has exited, i.e. the goroutine count is back
+// at what it was before the case.  Fallback (count does not come back within 2 s, e.g. a
+// pump that no longer ends): wait for 20 ms without a new event.
+func (r *recorder) quiesce(baseline int) {
+	deadline := time.Now().Add(2 * time.Second)
+	for runtime.NumGoroutine() > baseline {
+		if time.Now().After(deadline) {
+			last, stable := r.count(), 0
+			for i := 0; i < 4000 && stable < 40; i++ {
+				time.Sleep(500 * time.Microsecond)
+				if n := r.count(); n == last {
+					stable++
+				} else {
+					last, stable = n, 0
+				}
+			}
+			return
 		}
+		runtime.Gosched()
+		time.Sleep(20 * time.Microsecond)
 	}
 }
 
@@ -192,12 +198,23 @@ func (w *watchConn) idleAt(total int) bool {
 	return w.inRead && w.delivered == total
 }
 
-func newService(name string, rec *recorder) services.Servicer {
+// one service object per name for the whole run, as in the server (smtp registers a
+// handler in a package-level mux per object, so there must be exactly one)
+var svcObj = map[string]services.Servicer{}
+var svcRec = map[string]*recorder{}
+
+func theService(name string) (services.Servicer, *recorder) {
+	if s, ok := svcObj[name]; ok {
+		return s, svcRec[name]
+	}
 	fn, ok := services.Get(regName(name))
 	if !ok {
 		hx.Fatal("service %s is not registered", name)
 	}
-	return fn(services.WithChannel(rec))
+	rec := &recorder{}
+	svcRec[name] = rec
+	svcObj[name] = fn(services.WithChannel(rec))
+	return svcObj[name], rec
 }
 
 func segments(in Input) [][]byte {
@@ -217,8 +234,9 @@ func segments(in Input) [][]byte {
 }
 
 func runTCP(in Input) (Obs, string) {
-	rec := &recorder{}
-	svc := newService(in.Svc, rec)
+	svc, rec := theService(in.Svc)
+	before := rec.count()
+	baseline := runtime.NumGoroutine()
 	sc, cc := lab.Pipe(&net.TCPAddr{IP: net.ParseIP("192.0.2.1"), Port: svcPort[in.Svc]}, &net.TCPAddr{IP: net.ParseIP("198.51.100.7"), Port: 40000})
 	wc := &watchConn{Conn: sc}
 	type fin struct {
@@ -288,14 +306,14 @@ func runTCP(in Input) (Obs, string) {
 		if waits[i] {
 			if !waitIdle(written) {
 				cc.Close()
-				return Obs{Events: rec.snapshot()}, "service neither idle nor finished 5 s after a complete unit"
+				return Obs{Events: rec.snapshot()[before:]}, "service neither idle nor finished 5 s after a complete unit"
 			}
 		}
 	}
 	// let the service finish what it has before the client goes away
 	if !waitIdle(written) && !finished() {
 		cc.Close()
-		return Obs{Events: rec.snapshot()}, "service neither idle nor finished 5 s after the last write"
+		return Obs{Events: rec.snapshot()[before:]}, "service neither idle nor finished 5 s after the last write"
 	}
 	cc.Close()
 	if result == nil {
@@ -303,26 +321,18 @@ func runTCP(in Input) (Obs, string) {
 		case f := <-done:
 			result = &f
 		case <-time.After(5 * time.Second):
-			return Obs{Events: rec.snapshot()}, "Handle did not return 5 s after the client closed the connection"
+			return Obs{Events: rec.snapshot()[before:]}, "Handle did not return 5 s after the client closed the connection"
 		}
 	}
-	rec.settle(in.Svc)
-	return Obs{Events: rec.snapshot(), Code: result.code, Panic: result.msg}, ""
+	rec.quiesce(baseline)
+	return Obs{Events: rec.snapshot()[before:], Code: result.code, Panic: result.msg}, ""
 }
 
 // UDP: one service object per run (as in the server), one connection per datagram
-var udpSvc = map[string]services.Servicer{}
-var udpRec = map[string]*recorder{}
 var udpSeq int
 
 func runUDP(in Input) (Obs, string) {
-	rec, ok := udpRec[in.Svc]
-	if !ok {
-		rec = &recorder{}
-		udpRec[in.Svc] = rec
-		udpSvc[in.Svc] = newService(in.Svc, rec)
-	}
-	svc := udpSvc[in.Svc]
+	svc, rec := theService(in.Svc)
 	before := rec.count()
 	udpSeq++
 	// a fresh source address per datagram: the amplification limiter (C10) stays out of the way
@@ -349,7 +359,6 @@ func runUDP(in Input) (Obs, string) {
 	}()
 	select {
 	case f := <-done:
-		rec.settle(in.Svc)
 		all := rec.snapshot()
 		return Obs{Events: all[before:], Code: f.code, Panic: f.msg}, ""
 	case <-time.After(3 * time.Second):
